@@ -573,11 +573,15 @@ def run_traces(ctx, nval, nrel, nhist):
         if kind == 'rel':
             good = [e for e in good if rel_core(e)]
         if not good:
+            if any(e['kind'] == kind and e['id'] in bad for e in events):
+                continue      # every candidate of this kind is already rejected: the run reports violations
             raise Machinery('no %s event available for the canary' % kind)
         c = dict(slim(good[len(good) // 2]))
         c[field] = c[field] + 7
         c['id'] = 900000 + len(can)
         can.append(c)
+    if not can:
+        return
     ok2, bad2, res2 = validate_trace('Trace_Binning', 'Trace_Binning.cfg', can)
     if ok2 or {b['id'] for b in bad2} != {c['id'] for c in can}:
         raise Machinery('canary accepted: trace validation is vacuous (%r)' % (bad2,))
